@@ -155,6 +155,50 @@ LAYOUTS = {
         [(2, "first"), (2, None), ("array:U16Be", None)]),
 }
 
+
+# Readers that dispatch on a format number read first: (what, {format: items after the format field})
+ARMS = {
+    "<layout::Coverage as binary::read::ReadBinary>::read": ("Coverage", {
+        1: [(2, "glyph"), ("array:U16Be", "glyph")],
+        2: [(2, None), ("array:CoverageRangeRecord", None)]}),
+    "<layout::ClassDef as binary::read::ReadBinary>::read": ("ClassDef", {
+        1: [(2, "start"), (2, "class"), ("array:U16Be", "class")],
+        2: [(2, "range"), ("array:ClassRangeRecord", "range")]}),
+    "<layout::SingleSubst as binary::read::ReadBinaryDep>::read_dep": ("SingleSubst", {
+        1: [(2, "coverage"), (2, "delta")],
+        2: [(2, "coverage"), (2, "substitute"), ("array:U16Be", "substitute")]}),
+    "<layout::SinglePos as binary::read::ReadBinaryDep>::read_dep": ("SinglePos", {
+        1: [(2, "coverage"), ("type:ValueFormat", None), (None, "value")],
+        2: [(2, "coverage"), ("type:ValueFormat", None), (2, "value"), ("array", "value")]}),
+    "<layout::PairPos as binary::read::ReadBinaryDep>::read_dep": ("PairPos", {
+        1: [(2, "coverage"), ("type:ValueFormat", None), ("type:ValueFormat", None), (2, "pairset"), ("array:U16Be", "pairset")],
+        2: [(2, "coverage"), ("type:ValueFormat", None), ("type:ValueFormat", None), (2, "classdef1"), (2, "classdef2"), (2, "class1"), (2, "class2"),
+            ("array", "class1")]}),
+    "<layout::ContextLookup<T> as binary::read::ReadBinaryDep>::read_dep": ("SequenceContext", {
+        1: [(2, "coverage"), (2, "ruleset"), ("array:U16Be", "ruleset")],
+        2: [(2, "coverage"), (2, "classdef"), (2, "classset"), ("array:U16Be", "classset")],
+        3: [(2, "coverage"), (2, "lookup"), ("array:U16Be", "coverage"), ("array", "lookup")]}),
+    "<layout::ChainContextLookup<T> as binary::read::ReadBinaryDep>::read_dep": ("ChainedSequenceContext", {
+        1: [(2, "coverage"), (2, "ruleset"), ("array:U16Be", "ruleset")],
+        2: [(2, "coverage"), (2, "backtrack"), (2, "input"), (2, "lookahead"), (2, "classset"), ("array:U16Be", "classset")],
+        3: [(2, "backtrack"), ("array:U16Be", "backtrack"), (2, "input"), ("array:U16Be", "input"), (2, "lookahead"), ("array:U16Be", "lookahead"),
+            (2, "lookup"), ("array", "lookup")]}),
+}
+ARMS["<tables::cmap::CmapSubtable<'b> as binary::read::ReadBinary>::read"] = ("cmap subtable", {
+    0: [(2, None), (2, "language"), ("array:U8", "glyph")],
+    2: [(2, None), (2, "language"), ("array:U16Be", "key"), ("array:SubHeader", "header")],
+    4: [(2, None), (2, "language"), (2, None), (2, None), (2, None), (2, None), ("array:U16Be", "end"), (2, None), ("array:U16Be", "start"),
+        ("array:I16Be", "delta"), ("array:U16Be", "rangeoffset"), ("array:U16Be", "glyph")],
+    6: [(2, None), (2, "language"), (2, "first"), (2, None), ("array:U16Be", "glyph")],
+    10: [(2, None), (4, None), (4, "language"), (4, "start"), (4, None), ("array:U16Be", "glyph")],
+    12: [(2, None), (4, None), (4, "language"), (4, "group"), ("array:SequentialMapGroup", "group")]})
+ARM_GROUPS = {"layout": [p for p in ARMS if p.startswith("<layout::")], "cmap": [p for p in ARMS if "cmap::" in p]}
+LAYOUTS["<tables::kern::KernTable<'_> as binary::read::ReadBinary>::read"] = ("kern header: version, nTables", [(2, None), (2, "count")])
+LAYOUTS["tables::kern::KernTable::<'a>::read_format0"] = (
+    "kern format 0: nPairs, searchRange, entrySelector, rangeShift, pairs[]", [(2, "pair"), (2, None), (2, None), (2, None), ("array:KernPair", "pair")])
+LAYOUTS["tables::kern::KernTable::<'a>::read_format2"] = (
+    "kern format 2: rowWidth, leftClassOffset, rightClassOffset, kerningArrayOffset", [(2, None), (2, "left"), (2, "right"), (2, "array")])
+
 GROUPS = {
     "layout": [p for p in LAYOUTS if p.startswith("<layout::")],
     "cmap": [p for p in LAYOUTS if "cmap::" in p],
@@ -176,6 +220,33 @@ def _norm(s):
     return (s or "").replace("_", "").lower()
 
 
+def compare_items(spec, items, why):
+    probs = []
+    if len(items) < len(spec):
+        probs.append("only %d reads before %s, the specification lists %d items" % (len(items), why, len(spec)))
+    for k, ((shape, kw), it) in enumerate(zip(spec, items)):
+        if isinstance(shape, int):
+            if it.kind not in ("prim", "type") or it.width != shape:
+                probs.append("item %d is %s (%s bytes), the specification has a %d-byte value" % (k, it.show(), it.width, shape))
+                continue
+        elif isinstance(shape, str) and shape.startswith("array"):
+            elem = shape.partition(":")[2]
+            if it.kind != "array" or (elem and not (it.ty or "").rstrip(")").endswith(elem)):
+                probs.append("item %d is %s, the specification has an array%s" % (k, it.show(), " of " + elem if elem else ""))
+                continue
+        elif isinstance(shape, str) and shape.startswith("type:"):
+            if it.kind != "type" or not (it.ty or "").endswith(shape[5:]):
+                probs.append("item %d is %s, the specification has a %s" % (k, it.show(), shape[5:]))
+                continue
+        elif shape == "bytes":
+            if it.kind != "bytes":
+                probs.append("item %d is %s, the specification has a byte range" % (k, it.show()))
+                continue
+        if kw and it.field and _norm(kw) not in _norm(it.field):
+            probs.append("item %d ends up in `%s`; by the specification it is the %s item" % (k, it.field, kw))
+    return probs
+
+
 def rule_layouts(run, fx, rule, groups, floors=True):
     paths = [p for g in groups for p in GROUPS[g]]
     run.rule(rule, "the readers consume the records the specification lays out: for %d record types (%s) the fixed-width reads before the first "
@@ -186,7 +257,7 @@ def rule_layouts(run, fx, rule, groups, floors=True):
     # a lifetime parameter gained or lost by the record type does not change which record it is
     by_norm = {}
     for cand in fx.bodies:
-        if cand.kind != "Closure" and cand.path.startswith("<") and "binary::read::Read" in cand.path:
+        if cand.kind != "Closure" and ((cand.path.startswith("<") and "binary::read::Read" in cand.path) or cand.path in LAYOUTS):
             by_norm.setdefault(_nolife(cand.path), []).append(cand)
     for path in sorted(paths):
         what, spec = LAYOUTS[path]
@@ -199,32 +270,37 @@ def rule_layouts(run, fx, rule, groups, floors=True):
         items, why = layout.reader_items(fx, b, through_checks=True)
         items = [it for it in items if it.kind != "opaque"]
         n += 1
-        probs = []
-        if len(items) < len(spec):
-            probs.append("only %d reads before %s, the specification lists %d items" % (len(items), why, len(spec)))
-        for k, ((shape, kw), it) in enumerate(zip(spec, items)):
-            if isinstance(shape, int):
-                if it.kind not in ("prim", "type") or it.width != shape:
-                    probs.append("item %d is %s (%s bytes), the specification has a %d-byte value" % (k, it.show(), it.width, shape))
-                    continue
-            elif isinstance(shape, str) and shape.startswith("array"):
-                elem = shape.partition(":")[2]
-                if it.kind != "array" or (elem and not (it.ty or "").rstrip(")").endswith(elem)):
-                    probs.append("item %d is %s, the specification has an array%s" % (k, it.show(), " of " + elem if elem else ""))
-                    continue
-            elif isinstance(shape, str) and shape.startswith("type:"):
-                if it.kind != "type" or not (it.ty or "").endswith(shape[5:]):
-                    probs.append("item %d is %s, the specification has a %s" % (k, it.show(), shape[5:]))
-                    continue
-            elif shape == "bytes":
-                if it.kind != "bytes":
-                    probs.append("item %d is %s, the specification has a byte range" % (k, it.show()))
-                    continue
-            if kw and it.field and _norm(kw) not in _norm(it.field):
-                probs.append("item %d ends up in `%s`; by the specification it is the %s item" % (k, it.field, kw))
+        probs = compare_items(spec, items, why)
         short = what.split(":")[0]
         if probs:
             run.fail(rule, "layout:%s" % short, "%s - %s: %s" % (what, path, "; ".join(probs)), "%s:%s" % (b.file, b.line))
         else:
             run.ok(rule, "%s: %s" % (short, " | ".join(it.show() for it in items[:len(spec)])))
+    for path in sorted(p for g in groups for p in ARM_GROUPS.get(g, [])):
+        what, table = ARMS[path]
+        cands = by_norm.get(_nolife(path), [])
+        b = cands[0] if len(cands) == 1 else None
+        if b is None:
+            if floors:
+                run.anchor_missing(rule, path)
+            continue
+        head, why = layout.reader_items(fx, b, through_checks=True)
+        m = re.search(r"branch at bb(\d+)", why)
+        ra = layout.reader_arms(b, int(m.group(1)), head) if m else None
+        if len(head) != 1 or head[0].width != 2 or ra is None or ra[0] != 0:
+            run.fail(rule, "layout:%s" % what, "%s does not dispatch on a 16-bit format number read first (%s)" % (path, why), "%s:%s" % (b.file, b.line))
+            continue
+        n += 1
+        _, arms_, _other = ra
+        for fmt, spec in sorted(table.items()):
+            if fmt not in arms_:
+                run.fail(rule, "layout:%s:format%d" % (what, fmt), "%s has no arm for format %d" % (path, fmt), "%s:%s" % (b.file, b.line))
+                continue
+            items, why2 = layout.reader_items(fx, b, start=arms_[fmt], through_checks=True)
+            items = [it for it in items if it.kind != "opaque"]
+            probs = compare_items(spec, items, why2)
+            if probs:
+                run.fail(rule, "layout:%s:format%d" % (what, fmt), "%s format %d - %s: %s" % (what, fmt, path, "; ".join(probs)), "%s:%s" % (b.file, b.line))
+            else:
+                run.ok(rule, "%s format %d: %s" % (what, fmt, " | ".join(it.show() for it in items[:len(spec)])))
     return n
